@@ -240,7 +240,9 @@ func C18(r *core.Run) {
 	rootTree := func() core.Tree {
 		t := core.Tree{
 			"outer/regex-assembly/123456.ra": "outerroot\n", "outer/regex-assembly/include/": "", "outer/rules/": "",
-			"outer/a/b/regex-assembly/123456.ra": "innerroot\n", "outer/a/b/c/d/e/": "", "outer/a/x/y/z/": "", "outer/p/q/r/s/": "",
+			// the inner root has no configuration file, the outer one has: everything, the configuration too, comes from the nearest root
+			"outer/regex-assembly/toolchain.yaml": "patterns:\n  anti_evasion:\n    unix: 'Q?'\n    windows: 'Q?'\n",
+			"outer/a/b/regex-assembly/123456.ra":  "##!> cmdline unix\ninnerroot\n##!<\n", "outer/a/b/c/d/e/": "", "outer/a/x/y/z/": "", "outer/p/q/r/s/": "",
 			"sibling/m/n/": "", "outer/a/b/regex-assembly/include/deep/": "", "outer/with blank/sub dir/": "", "outer/a/b/ünï/": "",
 			// a root whose regex-assembly is a symbolic link to a directory elsewhere, a root reached through a linked
 			// directory, and a dangling link called regex-assembly (contains nothing: not a root)
@@ -304,7 +306,11 @@ func C18(r *core.Run) {
 				wantOut := ""
 				if want != "" {
 					b, _ := os.ReadFile(filepath.Join(want, "regex-assembly/123456.ra"))
-					wantOut = strings.TrimSpace(string(b))
+					for _, l := range strings.Split(string(b), "\n") {
+						if l != "" && !strings.HasPrefix(l, "##!") {
+							wantOut = l
+						}
+					}
 				}
 				if want == "" {
 					o.Rejected++
@@ -334,7 +340,7 @@ func C18(r *core.Run) {
 			t["regex-assembly/"+f] = token(f) + "\n"
 		}
 		// names outside the grammar must be ignored by --all
-		for _, f := range []string{"12345.ra", "1234567.ra", "123456.txt", "123456-chain1.ra.bak", "x123456.ra", "123456-chain1x.ra", "notes.ra"} {
+		for _, f := range []string{"12345.ra", "1234567.ra", "123456.txt", "123456-chain1.ra.bak", "x123456.ra", "123456-chain1x.ra", "notes.ra", "123456.ra.ra", "123456-chain1.ra.ra", "123457.ra.RA"} {
 			t["regex-assembly/"+f] = "ignored" + token(f) + "\n"
 		}
 		t.Materialise(sb)
